@@ -13,7 +13,7 @@ pub fn def() -> PropDef {
         run,
         shrink: Shrink::None,
         render: render_av,
-        rule: "every value of UA (single-bit tuples over all 96 / 288 input bits, every byte value in every byte position, 6561 octet combinations, 121 port pairs, 256 IPv6 zero-run masks, Unix single-position patterns over all 216 positions) goes through IPv4::new, IPv6::new, v1::Addresses::new_tcp4/new_tcp6, Unix::new, the From<IPv4|IPv6|Unix> impls and From<(SocketAddr, SocketAddr)> for v1 and v2 (V4/V4, V6/V6 with flow-info and scope 0 and non-zero, and the mixed pairs); each field must equal the like-named argument; non-trivial = every value; distinct = hash of the value encoding",
+        rule: "every value of UA (single-bit tuples over all 96 / 288 input bits, every byte value in every byte position, 6561 octet combinations, 121 port pairs, 256 IPv6 zero-run masks, Unix single-position patterns over all 216 positions) goes through IPv4::new, IPv6::new, v1::Addresses::new_tcp4/new_tcp6, Unix::new, the From<IPv4|IPv6|Unix> impls and From<(SocketAddr, SocketAddr)> for v1 and v2 (V4/V4, V6/V6 with flow-info and scope 0 and non-zero, the mixed pairs, and every same-family pair once more right after each of six neighbouring pairs); each field must equal the like-named argument; non-trivial = every value; distinct = hash of the value encoding",
         assumptions: &["a depth-1 exploration: an exhaustive enumeration of a structured value menu against a field-by-field reference"],
     }
 }
@@ -85,6 +85,26 @@ fn check(v: &AV, acc: &mut Acc) {
                 v2::Addresses::IPv4(x) if v4_ok(&x, src, dst, sp, dp) => {}
                 other => bad(acc, "v2::Addresses::from((SocketAddr, SocketAddr))", format!("{:?}", other)),
             }
+            // a conversion may not depend on the pair converted just before it (neighbouring pairs first, as for IPv6)
+            {
+                let flip4 = |a: [u8; 4]| [a[0], a[1], a[2], a[3] ^ 1];
+                let neighbours = [(flip4(src), dst, sp ^ 1, dp), (src, flip4(dst), sp ^ 1, dp), (flip4(src), dst, sp, dp ^ 1), (src, flip4(dst), sp, dp ^ 1), (flip4(src), flip4(dst), sp, dp), (src, dst, sp ^ 1, dp ^ 1)];
+                for (ns, nd, nsp, ndp) in neighbours {
+                    let n_s = SocketAddr::V4(SocketAddrV4::new(ns.into(), nsp));
+                    let n_d = SocketAddr::V4(SocketAddrV4::new(nd.into(), ndp));
+                    // an unrelated pair first, so that whatever is remembered is not this very pair
+                    let far = (SocketAddr::V4(SocketAddrV4::new(Ipv4Addr::new(198, 51, 100, 7), 7)), SocketAddr::V4(SocketAddrV4::new(Ipv4Addr::new(203, 0, 113, 9), 9)));
+                    let _ = (v1::Addresses::from(far), v2::Addresses::from(far));
+                    let _ = (v1::Addresses::from((n_s, n_d)), v2::Addresses::from((n_s, n_d)));
+                    acc.eval(4);
+                    let ok1 = matches!(v1::Addresses::from((s, d)), v1::Addresses::Tcp4(x) if v4_ok(&x, src, dst, sp, dp));
+                    let ok2 = matches!(v2::Addresses::from((s, d)), v2::Addresses::IPv4(x) if v4_ok(&x, src, dst, sp, dp));
+                    if !ok1 || !ok2 {
+                        bad(acc, "Addresses::from((SocketAddr, SocketAddr)) right after converting a neighbouring pair", format!("v1 ok = {}, v2 ok = {}", ok1, ok2));
+                        break;
+                    }
+                }
+            }
             // mixed pairs -> unknown / unspecified
             let d6 = SocketAddr::V6(SocketAddrV6::new(Ipv6Addr::LOCALHOST, dp, 0, 0));
             if v1::Addresses::from((s, d6)) != v1::Addresses::Unknown || v1::Addresses::from((d6, s)) != v1::Addresses::Unknown {
@@ -138,6 +158,32 @@ fn check(v: &AV, acc: &mut Acc) {
                 match v2::Addresses::from((s, d)) {
                     v2::Addresses::IPv6(x) if v6_ok(&x, src, dst, sp, dp) => {}
                     other => bad(acc, "v2::Addresses::from((SocketAddr, SocketAddr))", format!("{:?}", other)),
+                }
+            }
+            // a conversion may not depend on the pair converted just before it: convert each neighbouring pair (two
+            // of the four fields changed in their lowest bit) first, then this one
+            {
+                let flip16 = |a: [u8; 16]| {
+                    let mut b = a;
+                    b[15] ^= 1;
+                    b
+                };
+                let neighbours = [(flip16(src), dst, sp ^ 1, dp), (src, flip16(dst), sp ^ 1, dp), (flip16(src), dst, sp, dp ^ 1), (src, flip16(dst), sp, dp ^ 1), (flip16(src), flip16(dst), sp, dp), (src, dst, sp ^ 1, dp ^ 1)];
+                for (ns, nd, nsp, ndp) in neighbours {
+                    let n_s = SocketAddr::V6(SocketAddrV6::new(ns.into(), nsp, 0, 0));
+                    let n_d = SocketAddr::V6(SocketAddrV6::new(nd.into(), ndp, 0, 0));
+                    let far = (SocketAddr::V6(SocketAddrV6::new(Ipv6Addr::new(0x2001, 0xdb8, 7, 0, 0, 0, 0, 7), 7, 0, 0)), SocketAddr::V6(SocketAddrV6::new(Ipv6Addr::new(0x2001, 0xdb8, 9, 0, 0, 0, 0, 9), 9, 0, 0)));
+                    let _ = (v1::Addresses::from(far), v2::Addresses::from(far));
+                    let _ = (v1::Addresses::from((n_s, n_d)), v2::Addresses::from((n_s, n_d)));
+                    let s0 = SocketAddr::V6(SocketAddrV6::new(src.into(), sp, 0, 0));
+                    let d0 = SocketAddr::V6(SocketAddrV6::new(dst.into(), dp, 0, 0));
+                    acc.eval(4);
+                    let ok1 = matches!(v1::Addresses::from((s0, d0)), v1::Addresses::Tcp6(x) if v6_ok(&x, src, dst, sp, dp));
+                    let ok2 = matches!(v2::Addresses::from((s0, d0)), v2::Addresses::IPv6(x) if v6_ok(&x, src, dst, sp, dp));
+                    if !ok1 || !ok2 {
+                        bad(acc, "Addresses::from((SocketAddr, SocketAddr)) right after converting a neighbouring pair", format!("v1 ok = {}, v2 ok = {}", ok1, ok2));
+                        break;
+                    }
                 }
             }
             let s = SocketAddr::V6(SocketAddrV6::new(src.into(), sp, 0, 0));
